@@ -168,6 +168,12 @@ def run_group(g, tier, seed, use_cache=True):
     mcs = {}
     ltsfiles = {}
     summaries = []
+    if g in ('tree', 'xfer'):
+        # Level B: the composite loops of the path layer refine the atomic Level-A composites
+        mc = run_mc('MC_PathLayer_q', 'MC_PathLayer_q')
+        if not mc['ok']:
+            raise ToolError('model checking of MC_PathLayer_q failed:\n%s' % mc.get('tail', ''))
+        mcs['MC_PathLayer_q'] = mc
     if g in ('ovl', 'ovl_cycles'):
         # Level B: the overlay algorithm refines Level A for every initial content of two layers
         mc = run_mc('MC_Overlay_q', 'MC_Overlay_q', workers=16)
@@ -242,10 +248,11 @@ def run_group(g, tier, seed, use_cache=True):
             mcs['MC_Join_q'] = mc
             s = harness(['hostiledir', '--cfgs', r['cfgs'], '--out', out])
         elif r['kind'] == 'emb':
-            mc = run_mc('MC_ReadOnly', 'MC_ReadOnly')
-            if not mc['ok']:
-                raise ToolError('model checking of MC_ReadOnly failed:\n%s' % mc.get('tail', ''))
-            mcs['MC_ReadOnly'] = mc
+            for mname in ('MC_ReadOnly', 'MC_Embedded_q'):
+                mc = run_mc(mname, mname)
+                if not mc['ok']:
+                    raise ToolError('model checking of %s failed:\n%s' % (mname, mc.get('tail', '')))
+                mcs[mname] = mc
             s = harness(['emb', '--out', out])
         elif r['kind'] == 'faults':
             inst = r['lts']
